@@ -1,7 +1,7 @@
 """C18 -- audio survives save/load unchanged; load(skip, max_read) equals slicing (DESIGN 4.18)"""
 import ast
 
-from ..facts import Ctx, norm_cmp, exc_name
+from ..facts import Ctx, norm_cmp, exc_name, tuple_components
 from ..symex import show, walk, term_name, bind_call
 from .. import pat as P
 from .c05 import check_roles
@@ -18,6 +18,7 @@ def is_exists_test(ct):
 
 def check(repo, rep):
     cx = Ctx(repo)
+    rep.cx = cx
     W = lambda n: cx.where('core', n)
     # ---------------------------------------------------------------- nullness of read results reaching a region (D4)
     sites, opt = check_nullness(cx, rep, lambda f: f['mod'] == 'core')
@@ -110,7 +111,8 @@ def check(repo, rep):
         wr = [e[1] for e in l.effects if e[0] == 'call' and e[1][0] == 'call' and e[1][1][0] == 'attr' and e[1][1][2] == 'write']
         rep.ob('the raw writer writes exactly the given bytes', len(wr) == 1 and wr[0][2] == (('p', 'data'),), cx.where('io', cx.fn('io', '_save_raw')), '_save_raw:write', 'writes %s' % [show(w)[:60] for w in wr])
     # ---------------------------------------------------------------- _read_offline / load
-    ol = cx.leaves('core', '_read_offline')
+    from ..facts import split_ites
+    ol = split_ites(cx.leaves('core', '_read_offline'))
     ofn = cx.fn('core', '_read_offline')
     nol = 0
     for l in ol:
@@ -141,7 +143,8 @@ def check(repo, rep):
             rep.ob('without max_read (None or negative) everything that remains is read', isnone, cx.where('core', reads[-1][3]), '_read_offline:read-all', 'reads %s' % (show(a)[:60] if a else None))
         v = l.value
         R_ = reads[-1][1]
-        d0 = v[1][0] if v[0] == 'tuple' and len(v[1]) >= 1 else None
+        comps = tuple_components(cx, v)
+        d0 = comps[0] if comps else None
         okv = d0 is not None and (d0 == R_ or d0 == ('c', b'') or d0 == ('or', (R_, ('c', b''))) or
                                   (d0[0] == 'ite' and ((norm_cmp(d0[1], True) == ('is', R_, ('c', None)) and d0[2] == ('c', b'') and d0[3] == R_) or
                                                        (norm_cmp(d0[1], True) == ('is not', R_, ('c', None)) and d0[2] == R_ and d0[3] == ('c', b'')))))
